@@ -6,7 +6,8 @@
   `from_bipartite_graph` orients an undirected edge by the `bipartite` flag, `to_simplicial_complex`
   accepts a directed source (and copies the network attributes — already fixed in /repo),
   `from_bipartite_edgelist([])` is the empty hypergraph, `add_edges_from` treats a set as a member set
-  whatever its first element is.
+  whatever its first element is; `from_hif_dict` / `from_hypergraph_dict` pass attribute dicts as values
+  (`set_node_attributes` / `set_edge_attributes`), never as `**attr`, so attribute keys are arbitrary strings.
 
   External libraries appear as the pure functions they are documented to be: numpy/scipy (`coo_array`:
   the row-major list of non-zero coordinates), networkx (`G.nodes(data=True)`: vertices in insertion
@@ -273,6 +274,39 @@ def dASetEdgeAttr (a : ADiNet) (e : PyId) (av : Attrs) : ADiNet :=
 def dASetNodeAttr (a : ADiNet) (n : PyId) (av : Attrs) : ADiNet :=
   if n ∈ a.net.nodes then { a with nattr := upd a.nattr n (Attrs.update (a.nattr n) av) } else a
 
+/-! ### attribute records of the readers (repaired: no `**attr` call is left)
+
+  On the unchanged tree `from_hif_dict` called `H.add_node(n, **attr)` / `H.add_edge(members, e, **attr)` and
+  `from_hypergraph_dict` called `H.add_node(idx, **dd)`: an attribute *key* spelled like a parameter (`node`,
+  `idx`, `members`) raised `TypeError`.  The repaired readers (proposed_fixes/C10-*.diff) first add the bare
+  node / edge when it is absent and then hand the attribute dict over as a *value*
+  (`H.set_node_attributes({n: attr})` / `H.set_edge_attributes({e: attr})`), so attribute keys are arbitrary
+  strings.  The steps below are these statements, literally. -/
+
+/-- one node record of `from_hif_dict`:
+    `if n not in H._node: H.add_node(n)` ; `H.set_node_attributes({n: attr})` -/
+def hifNodeRec (a : ANet) (n : PyId) (av : Attrs) : ANet :=
+  aSetNodeAttr (if n ∈ a.net.nodes then a else aAddNode a n []) n av
+
+/-- one edge record of `from_hif_dict` (undirected / asc):
+    `if e not in H._edge: H.add_edge(set(), e)` ; `H.set_edge_attributes({e: attr})` -/
+def hifEdgeRec (a : ANet) (e : PyId) (av : Attrs) : ANet :=
+  aSetEdgeAttr (if e ∈ a.net.edgeIds then a else aAddEdge a e [] []) e av
+
+/-- one node record of `from_hif_dict` (directed) -/
+def dHifNodeRec (a : ADiNet) (n : PyId) (av : Attrs) : ADiNet :=
+  dASetNodeAttr (if n ∈ a.net.nodes then a else dAAddNode a n []) n av
+
+/-- one edge record of `from_hif_dict` (directed):
+    `if e not in H._edge: H.add_edge((set(), set()), e)` ; `H.set_edge_attributes({e: attr})` -/
+def dHifEdgeRec (a : ADiNet) (e : PyId) (av : Attrs) : ADiNet :=
+  dASetEdgeAttr (if e ∈ dEdgeIds a.net then a else dAAddEdge a e [] [] []) e av
+
+/-- one entry of `data["node-data"]` in `from_hypergraph_dict`:
+    `H.add_node(idx)` ; `H.set_node_attributes({idx: dd})` -/
+def hdNodeRec (a : ANet) (n : PyId) (av : Attrs) : ANet :=
+  aSetNodeAttr (aAddNode a n []) n av
+
 /-! ### the standard hypergraph dict (xgi-data JSON layout) -/
 
 structure HDict where
@@ -312,6 +346,35 @@ def mapE {α β} (f : α → Except Err β) : List α → Except Err (List β)
     | .error e, _ => .error e
     | _, .error e => .error e
 
+/-- `str(id)` for atomic IDs: the decimal numeral of an int, a string itself (what the driver passes as `cast`) -/
+def strCast : PyId → String
+  | .atom (.int i) => toString i
+  | .atom (.str s) => s
+  | _ => "?"
+
+/-- `nodetype=int` / `edgetype=int`: `int(s)`, a `TypeError`-class failure on a non-numeral -/
+def uncastInt (s : String) : Except Err PyId :=
+  match s.toInt? with
+  | some i => .ok (.int i)
+  | none => .error .type
+
+/-- `nodetype=None` / `edgetype=None`: the JSON key stays the string it is -/
+def uncastStr (s : String) : Except Err PyId := .ok (.str s)
+
+/-- the ID type a reader is told to expect: `int` or `None` -/
+inductive IdType where | int | str
+  deriving DecidableEq, Repr, Inhabited
+
+def IdType.uncast : IdType → String → Except Err PyId
+  | .int => uncastInt
+  | .str => uncastStr
+
+/-- the ID has the given type -/
+def IdType.Holds (t : IdType) (x : PyId) : Prop :=
+  match t with
+  | .int => ∃ i : Int, x = .int i
+  | .str => ∃ s : String, x = .str s
+
 /-- `to_hypergraph_dict`: IDs are cast to strings; colliding casts are refused (`XGIError`) -/
 def toHypergraphDict (cast : PyId → String) (a : ANet) : Except Err HDict :=
   if ¬ (a.net.nodes.map cast).Nodup then .error .lib
@@ -326,7 +389,7 @@ def toHypergraphDict (cast : PyId → String) (a : ANet) : Except Err HDict :=
 /-- the construction part of `from_hypergraph_dict`, after the ID casts -/
 def buildHD (g : Attrs) (nd : List (PyId × Attrs)) (ed : List (PyId × List PyId)) (ea : List (PyId × Attrs)) : ANet :=
   let a0 := { emptyANet .hg with gattr := Attrs.update [] g }
-  let a1 := nd.foldl (fun a p => aAddNode a p.1 p.2) a0
+  let a1 := nd.foldl (fun a p => hdNodeRec a p.1 p.2) a0
   let a2 := ed.foldl (fun a p => aAddEdge a p.1 p.2 []) a1
   ea.foldl (fun a p => aSetEdgeAttr a p.1 p.2) a2
 
@@ -382,14 +445,14 @@ def toHifDi (a : ADiNet) : Hif :=
 def fromHifU (d : Hif) : ANet :=
   let a0 : ANet := { emptyANet .hg with gattr := Attrs.update [] d.metadata }
   let a1 := d.incs.foldl (fun a r => aLink a r.1 r.2.1) a0
-  let a2 := d.nodes.foldl (fun a r => if r.1 ∈ a.net.nodes then aSetNodeAttr a r.1 (r.2.getD []) else aAddNode a r.1 (r.2.getD [])) a1
-  d.edges.foldl (fun a r => if r.1 ∈ a.net.edgeIds then aSetEdgeAttr a r.1 (r.2.getD []) else aAddEdge a r.1 [] (r.2.getD [])) a2
+  let a2 := d.nodes.foldl (fun a r => hifNodeRec a r.1 (r.2.getD [])) a1
+  d.edges.foldl (fun a r => hifEdgeRec a r.1 (r.2.getD [])) a2
 
 def fromHifD (d : Hif) : ADiNet :=
   let a0 : ADiNet := { emptyADiNet with gattr := Attrs.update [] d.metadata }
   let a1 := d.incs.foldl (fun a r => { a with net := dLink a.net r.1 r.2.1 (r.2.2.getD .head) }) a0
-  let a2 := d.nodes.foldl (fun a r => if r.1 ∈ a.net.nodes then dASetNodeAttr a r.1 (r.2.getD []) else dAAddNode a r.1 (r.2.getD [])) a1
-  d.edges.foldl (fun a r => if r.1 ∈ dEdgeIds a.net then dASetEdgeAttr a r.1 (r.2.getD []) else dAAddEdge a r.1 [] [] (r.2.getD [])) a2
+  let a2 := d.nodes.foldl (fun a r => dHifNodeRec a r.1 (r.2.getD [])) a1
+  d.edges.foldl (fun a r => dHifEdgeRec a r.1 (r.2.getD [])) a2
 
 /-! ### class-to-class constructors -/
 
